@@ -7,7 +7,8 @@ namespace Drv
 def hMetaOnly (j : Json) : Except String Json := do
   let view ← (← getArr j "view").toList.mapM parseVEnt
   let sel ← getHexArr j "selected"
-  let selected := fun p => sel.contains p
+  -- (nothing can be created below the name of the listing file: entries there are listed, never materialised - F33)
+  let selected := fun p => sel.contains p && !underB metaNameB p
   let stats := view.map (·.st)
   let r := metaRun Fix.f2 selected stats
   let spec := specForwarded selected stats
@@ -28,7 +29,8 @@ open Fsm
 def hMetaSync (j : Json) : Except String Json := do
   let view ← (← getArr j "view").toList.mapM parseVEnt
   let sel ← getHexArr j "selected"
-  let selected := fun p => sel.contains p
+  -- (nothing can be created below the name of the listing file: entries there are listed, never materialised - F33)
+  let selected := fun p => sel.contains p && !underB metaNameB p
   let before ← (← getArr j "before").toList.mapM parseSnap
   let afterAll ← (← getArr j "after").toList.mapM parseSnap
   let after := afterAll.filter (·.st.path ≠ metaNameB)
